@@ -69,8 +69,11 @@ def same_rows(a, b):
 
 def run_case(case):
     cols = case['cols']
-    schema = pa.schema([(c, COLS[c]) for c in cols])
     rows = make_rows(cols, case['rows'], case['seed'], case.get('nulls', False))
+    # column NAMES are arbitrary strings: also ones that are attribute / method names of the row dicts
+    rename = {'i': 'values', 's': 'items', 'f': 'keys', 'st': 'copy', 'l': 'get'} if case.get('names') == 'methods' else {}
+    schema = pa.schema([(rename.get(c, c), COLS[c]) for c in cols])
+    rows = [{rename.get(c, c): v for c, v in row.items()} for row in rows]
     ctx = dict(case)
     d = tempfile.mkdtemp(prefix='rxsci_c20_')
     try:
@@ -144,7 +147,8 @@ def case_gen(draw):
     cols = draw(st.lists(st.sampled_from(sorted(COLS)), min_size=1, max_size=5, unique=True))
     return {'rows': rows, 'dump_batch': b, 'load_batch': draw(st.one_of(st.integers(1, 8), st.integers(1, 2000))),
             'row_group': draw(st.sampled_from([None, None, 1, 3, 100])), 'compression': draw(st.sampled_from(['NONE', 'snappy', 'gzip', 'zstd'])),
-            'cols': cols, 'fileobj': draw(st.booleans()), 'seed': draw(st.integers(0, 99)), 'nulls': draw(st.booleans()), 'twice': draw(st.integers(0, 3)) == 0, 'cursor': draw(st.booleans())}
+            'cols': cols, 'fileobj': draw(st.booleans()), 'seed': draw(st.integers(0, 99)), 'nulls': draw(st.booleans()), 'twice': draw(st.integers(0, 3)) == 0, 'cursor': draw(st.booleans()),
+            'names': draw(st.sampled_from([None, None, 'methods']))}
 
 
 def boundary(tier):
